@@ -171,7 +171,7 @@ theorem tick_oneshot (e : Env) : ∀ n a, a.cls = .oneshot → Inv a → Inv2 a 
       simp only
       split
       · -- the one-shot expiry: timer gone, not re-armed
-        have hex : (expire a e).1 = { a with timer := none, st := .inited, nFired := a.nFired + 1 } := by
+        have hex : (expire a e).1 = { a with timer := none, st := .inited, nFired := a.nFired + 1, lastServed := a.target } := by
           unfold expire; simp [hc]
         have hidle := tick_idle (expire a e).1 e (by rw [hex]) n
         rw [hidle]
